@@ -48,29 +48,40 @@ impl LanguageServer {
         let stdin = tokio::io::stdin();
         let mut framed_read = FramedRead::new(stdin, io::LSCodec);
 
-        phases::initialization(&mut self, &mut framed_read, iotx.clone())
-            .await
-            .wrap_err("Unexpected error occured during initialization")?;
+        // every phase reports whether it was ended by an `exit` notification without preceding `shutdown`
+        let mut ungraceful_exit =
+            phases::initialization(&mut self, &mut framed_read, iotx.clone())
+                .await
+                .wrap_err("Unexpected error occured during initialization")?;
 
-        // spawn thread which handles document synchronization
         let (doctx, docrx) = mpsc::channel(32);
-        handles.push(tokio::spawn(document::broker(
-            docrx,
-            iotx.clone(),
-            self.client_details.diagnostics,
-        )));
+        if !ungraceful_exit {
+            // spawn thread which handles document synchronization
+            handles.push(tokio::spawn(document::broker(
+                docrx,
+                iotx.clone(),
+                self.client_details.diagnostics,
+            )));
 
-        phases::main(&mut framed_read, iotx.clone(), doctx.clone())
-            .await
-            .wrap_err("Unexpected error occured during main phase")?;
+            ungraceful_exit = phases::main(&mut framed_read, iotx.clone(), doctx.clone())
+                .await
+                .wrap_err("Unexpected error occured during main phase")?;
+        }
 
-        phases::shutdown(&mut framed_read, iotx)
-            .await
-            .wrap_err("Unexpected error occured during shutdown")?;
+        if !ungraceful_exit {
+            phases::shutdown(&mut framed_read, iotx.clone())
+                .await
+                .wrap_err("Unexpected error occured during shutdown")?;
+        }
 
+        // all responses produced so far are written before the process ends
         drop(doctx);
+        drop(iotx);
         for handle in handles {
             handle.await.expect("Cannot await handle");
+        }
+        if ungraceful_exit {
+            std::process::exit(1)
         }
         Ok(())
     }
@@ -125,7 +136,7 @@ mod phases {
         ls: &mut LanguageServer,
         framed_read: &mut FramedRead<Stdin, LSCodec>,
         iotx: Sender<Message>,
-    ) -> Result<()> {
+    ) -> Result<bool> {
         while let Some(frame) = framed_read.next().await {
             let message = frame.wrap_err("Recieved frame with error")?;
             match message {
@@ -155,7 +166,7 @@ mod phases {
                 }
                 Message::Notification(notification) => {
                     if notification.method.as_str() == Exit::METHOD {
-                        std::process::exit(1) // ungraceful exit
+                        return Ok(true); // ungraceful exit
                     }
                 }
                 Message::Response(response) => {
@@ -185,7 +196,7 @@ mod phases {
                 }
                 Message::Notification(notification) => match notification.method.as_str() {
                     Initialized::METHOD => break, // Server is properly initialized and can start working
-                    Exit::METHOD => std::process::exit(1), // ungraceful exit
+                    Exit::METHOD => return Ok(true), // ungraceful exit
                     _ => { /* drop all other notifications */ }
                 },
                 Message::Response(response) => {
@@ -193,14 +204,14 @@ mod phases {
                 }
             };
         }
-        Ok(())
+        Ok(false)
     }
 
     pub(super) async fn main(
         framed_read: &mut FramedRead<Stdin, LSCodec>,
         iotx: Sender<Message>,
         doctx: Sender<DocumentRequest>,
-    ) -> Result<()> {
+    ) -> Result<bool> {
         while let Some(frame) = framed_read.next().await {
             let message = frame.wrap_err("Recieved frame with error")?;
             match message {
@@ -218,7 +229,7 @@ mod phases {
                             let (_, response) = request.split();
                             let response = response.into_result_response(Value::Null);
                             iotx.send(Message::Response(response)).await?;
-                            return Ok(());
+                            return Ok(false);
                         }
                         GotoDeclaration::METHOD => {
                             respond!(request, features::goto::declaration, doctx.clone())
@@ -281,7 +292,7 @@ mod phases {
                         DidCloseTextDocument::METHOD => {
                             note!(notification, document::close, doctx.clone());
                         }
-                        Exit::METHOD => std::process::exit(1), // ungraceful exit
+                        Exit::METHOD => return Ok(true), // ungraceful exit
                         _ => { /* drop all other notifications */ }
                     };
                 }
@@ -290,7 +301,7 @@ mod phases {
                 }
             }
         }
-        Ok(())
+        Ok(false)
     }
 
     pub(super) async fn shutdown(
